@@ -24,11 +24,18 @@ RULE = ("histories over four live objects of one type; widths {1,7,8,9,31,32,33,
         "(set with and without the value argument, reset, flip whole and single, proxy assign/flip/copy, &= |= ^= & | ^ ~, ==, "
         "to_ulong/to_ullong, to_string with 0, 1 and 2 arguments), and every string over {zero,one} up to length 4 x every pos x "
         "every n (incl. npos) x every argument-list length (str | str,pos | str,pos,n | str,pos,n,zero | all five; cstr | cstr,n | "
-        "cstr,n,zero | all four) for the string constructors; strings longer than the bitset: every string of length N+1 at "
-        "N = 7 and 8 (pos 0..2, n in {N-1,N,N+1,npos}), 400 seeded strings of length N+1..N+3 at N = 9, random ones at every width; "
+        "cstr,n,zero | all four) for the string constructors, over the alphabets ('0','1'), ('A','B'), (CharT(0),CharT(1)) and "
+        "('1',CharT(0)); what the constructors may read: a view is an exact-size heap buffer (no terminator, no slack); the "
+        "pointer overload gets the list `s` as its WHOLE allocation: with an explicit n an exact-size heap buffer of len(s) >= n "
+        "units and NO terminator (n = len(s) and every smaller n), null characters among the units being digits when the "
+        "alphabet contains CharT(0); only the npos / defaulted form carries a terminator (then a null digit ends the string, "
+        "for std alike); strings longer than the bitset: every string of length N+1 at "
+        "N = 7 and 8 (pos 0..2, n in {N-1,N,N+1,npos}; also as raw {0,1} units through pointer and view), 400 seeded strings of "
+        "length N+1..N+3 at N = 9, random ones at every width; "
         "character types wchar_t, char8_t, char16_t, char32_t (harness instantiations at N in {0,1,9,64,65,129}): every string up "
-        "to length 3 over four (zero,one) pairs per type, some differing only above the low byte / low 16 bits, then to_string "
-        "in the same type; bitset<0> / basic_bitset<0,W>: one scripted case per storage kind with every member that takes no "
+        "to length 3 over six (zero,one) pairs per type, some differing only above the low byte / low 16 bits, two containing "
+        "CharT(0), then to_string in the same type (capacity N exactly and N+5; size, characters and the terminator behind "
+        "them are compared); bitset<0> / basic_bitset<0,W>: one scripted case per storage kind with every member that takes no "
         "position; to_ulong/to_ullong at N in {65,127,128,129} with a bit set and cleared at 64, 65, N-2, N-1 (fits / overflow); "
         "beyond that seeded random histories up to length 60 mixing whole-set, single-bit, binary and constructor "
         "operations with positions biased to 0, N-1 and word boundaries +-1.  After EVERY mutating line the target's full "
@@ -39,8 +46,10 @@ RULE = ("histories over four live objects of one type; widths {1,7,8,9,31,32,33,
         "(or N = 1; never for N = 0); distinct = distinct case text.")
 ASSUMPTIONS = ["std::bitset of libstdc++ 12 is the reference for spec validation (R2)",
                "preconditions excluded from generation: pos < size() for single-bit members; string constructors: pos <= size(), "
-               "every used character is zero or one, no NUL inside a C string, n <= length or npos for the pointer overload "
-               "(std throws for the first two, the rest is UB in both).  NOT excluded: to_ulong/to_ullong on a value that does not "
+               "every used character is zero or one; pointer overload: [str, str+n) readable when n is given, a terminator in the "
+               "buffer when n is npos (std throws for the first two, the rest is UB in both).  NOT excluded: null characters among "
+               "the first n units of a pointer call (digits of an alphabet with CharT(0)), buffers without terminator when n is "
+               "given; to_ulong/to_ullong on a value that does not "
                "fit (std: overflow_error; tetl: failed contract, observed through the assert handler)",
                "popcount on the run-time path is a compiler builtin, trusted to return the number of one bits; the portable "
                "loop etl::detail::popcount_fallback (the constant-evaluated path) is proved to return that number "
@@ -61,11 +70,13 @@ THEOREMS = {
     "and": [_P + "andAssign_rep"] + _H, "or": [_P + "orAssign_rep"] + _H, "xor": [_P + "xorAssign_rep"] + _H,
     "band": [_P + "andAssign_rep"] + _H, "bor": [_P + "orAssign_rep"] + _H, "bxor": [_P + "xorAssign_rep"] + _H,
     "assign": _H, "not": [_P + "not_rep"] + _H, "from_ull": [_P + "fromUll_rep"] + _H,
-    "from_str": [_P + "fromString_rep", _P + "fromCstr_rep", _P + "fromStringD_rep", _P + "fromCstrD_rep"] + _H,
+    "from_str": [_P + "fromString_rep", _P + "fromCstr_rep", _P + "fromStringD_rep", _P + "fromCstrD_rep",
+                 _P + "fromString_footprint", _P + "fromStringV_eq", _P + "fromCstr_footprint", _P + "fromCstr_take",
+                 _P + "fromCstr_npos_footprint", _P + "fromCstr_eq", _P + "strlen_eq"] + _H,
     "probe": [_P + "test_eq", _P + "uncheckedTest_eq", _P + "getConst_eq", _P + "refGet_eq", _P + "refNot_eq"],
     "eq": [_P + "eq_eq"], "to_ullong": [_P + "toUnsigned_eq", _P + "toUnsigned_overflow", _P + "toUnsigned_narrow"],
     "to_ulong": [_P + "toUnsigned_eq", _P + "toUnsigned_overflow", _P + "toUnsigned_narrow"],
-    "to_string": [_P + "toStr_eq", _P + "toStrD_eq"],
+    "to_string": [_P + "toStr_eq", _P + "toStrD_eq", _P + "toStr_exact_capacity"],
 }
 SEARCH_CAP = 20000
 
@@ -148,7 +159,11 @@ def all_strings(maxlen, z, o):
 
 def str_line(o, s, pos=None, n=None, z=None, one=None, ov="sv", ct="c"):
     """an argument that is None is NOT passed (trailing arguments only): the line carries exactly the
-    arguments of the call"""
+    arguments of the call.  `s` of a pointer call (ov=cstr) is the WHOLE allocation behind the pointer (the
+    harness makes an exact-size heap buffer of it): with an explicit n nothing is appended (no terminator:
+    [str, str + n) is all that has to be readable); only the npos / defaulted form gets its terminator here"""
+    if ov == "cstr" and n in (None, "npos"):
+        s = list(s) + [0]
     ln = "from_str o=%d s=%s" % (o, fmt_list(s))
     if pos is not None:
         ln += " pos=%s" % pos
@@ -185,11 +200,13 @@ def string_ctor_cases(n, rnd):
     """every string up to length 4 (and, at N = 7, every string of length N + 1) x every pos x every n, view and
     pointer overloads, all argument-list lengths"""
     cases = []
-    for (zz, oo, explicit) in ((48, 49, False), (65, 66, True)):
+    # the last two alphabets contain CharT(0): raw 0/1 bytes as digits (zero = '\0') and one = '\0'.  In the pointer
+    # overload with an explicit n such a unit is a digit like any other; with npos it ends the string
+    for (zz, oo, explicit) in ((48, 49, False), (65, 66, True), (0, 1, True), (49, 0, True)):
         L = ["new N=%d w=bs" % n]
         for s in all_strings(4, zz, oo):
             ctor_lines(L, s, zz, oo, explicit)
-        cases.append(Case(L, "str-exh/N%d" % n))
+        cases.append(Case(L, "str-exh/N%d" % n if zz and oo else "str-nul/N%d" % n))
     # only `zero` passed (one defaulted to '1'): strings over {zero, 49}
     L = ["new N=%d w=bs" % n]
     for s in all_strings(3, 97, 49):
@@ -210,6 +227,12 @@ def string_ctor_cases(n, rnd):
                     L.append(str_line(0, s, pos, cnt))
             L.append(str_line(1, s, None, "npos", ov="cstr"))
             L.append(str_line(1, s, None, m, 48, 49, "cstr"))
+            # raw digits {0,1} in an exact-size buffer of N + 1 units, n = N + 1 and N (pointer overload), and as a view
+            r = [c - 48 for c in s]
+            L.append(str_line(1, r, None, m, 0, 1, "cstr"))
+            L.append(str_line(1, r, None, n, 0, 1, "cstr"))
+            L.append(str_line(0, r, 0, m, 0, 1))
+            L.append("eq o=0 rhs=1")
         cases.append(Case(L, "str-long/N%d" % n))
     elif n == 9:
         L = ["new N=%d w=bs" % n]
@@ -229,12 +252,14 @@ CTS = ["w", "u8", "u16", "u32"]
 WIDE_CT = (0, 1, 9, 64, 65, 129)
 # (zero, one) pairs per character type; several differ only ABOVE the low byte / low 16 bits, so that a
 # comparison or a copy that narrows the character is visible
+# the last two pairs of every type contain CharT(0) (its partner differs from it only above the low byte / low 16
+# bits for the wide types): a null character among the first n units of a pointer call is a digit, not a terminator
 CT_PAIRS = {
-    "c": [(48, 49), (65, 66), (120, 200), (49, 48)],
-    "u8": [(48, 49), (0xC3, 0xA9), (49, 48), (1, 255)],
-    "u16": [(48, 49), (0x0141, 0x0241), (0x3A9, 0x3C9), (0xFFFF, 0x00FF)],
-    "u32": [(48, 49), (0x10041, 0x20041), (0x1F600, 0x1F601), (0x41, 0x10041)],
-    "w": [(48, 49), (0x10041, 0x20041), (0x3A9, 0x103A9), (0x7FFFFFFF, 0x7FFF)],
+    "c": [(48, 49), (65, 66), (120, 200), (49, 48), (0, 1), (49, 0)],
+    "u8": [(48, 49), (0xC3, 0xA9), (49, 48), (1, 255), (0, 1), (0xFF, 0)],
+    "u16": [(48, 49), (0x0141, 0x0241), (0x3A9, 0x3C9), (0xFFFF, 0x00FF), (0, 0x0100), (1, 0)],
+    "u32": [(48, 49), (0x10041, 0x20041), (0x1F600, 0x1F601), (0x41, 0x10041), (0, 0x10000), (0x100, 0)],
+    "w": [(48, 49), (0x10041, 0x20041), (0x3A9, 0x103A9), (0x7FFFFFFF, 0x7FFF), (0, 0x10000), (1, 0)],
 }
 
 
@@ -250,7 +275,11 @@ def char_type_cases(n, rnd):
                 ctor_lines(L, s, zz, oo, explicit, ct)
             s = [rnd.choice((zz, oo)) for _ in range(n + 2)]
             L.append(str_line(2, s, 0, "npos", zz, oo, ct=ct))
+            # the same digits through the pointer: terminated (npos; cut at the first null character when the alphabet
+            # has one) and as an exact-size buffer of n + 2 units with n passed
             L.append(str_line(3, s, None, "npos", zz, oo, "cstr", ct))
+            L.append("eq o=2 rhs=3")
+            L.append(str_line(3, s, None, len(s), zz, oo, "cstr", ct))
             L.append("eq o=2 rhs=3")
             L.append("to_string o=2 cap=%d ct=%s" % (n, ct))
             L.append("to_string o=2 cap=%d zero=%d ct=%s" % (n + 5, zz, ct))
@@ -488,10 +517,17 @@ LEVEL_TEXT = ("A word-array model of basic_bitset/bitset (BitVec words, checked 
               "failure exactly when std::bitset throws overflow_error); calls that leave trailing arguments to their defaults "
               "(set(pos), to_string(), to_string(zero), the shorter argument lists of both string constructors) are separate "
               "model operations with their own theorems; characters are code unit values, so the string members are proved for "
-              "every character type.  The model is tied to the current source on every "
+              "every character type.  A character buffer is modelled as the list of units readable up to the end of its "
+              "allocation and a string_view as buffer + size(), every unit read being checked: the pointer overload is proved to "
+              "use basic_string(str) for npos and EXACTLY the first n units otherwise (null characters included, "
+              "Spec.cstrChars), and footprint theorems state what is read: the result on an exact-size buffer equals the result "
+              "on any extension of it for the view constructor (fromString_footprint: nothing at or behind data()+size()), for "
+              "the pointer overload with an explicit n (fromCstr_footprint / fromCstr_take: the first n units, no terminator is "
+              "looked for) and for its npos form (fromCstr_npos_footprint: up to and including the terminator).  The model is tied to the current source on every "
               "run by executing model and implementation (ASan/UBSan, contract checks on) on the same histories: exhaustive for N in "
               "{1,7,8,9} x 5 storage kinds (every value x every single operation), random histories to length 60 at the 13 widths "
-              "around the word boundaries, N = 0, and wchar_t/char8_t/char16_t/char32_t instantiations at six widths; the spec is "
+              "around the word boundaries, N = 0, and wchar_t/char8_t/char16_t/char32_t instantiations at six widths; string "
+              "arguments are exact-size heap buffers (no terminator behind an explicit n; alphabets with CharT(0)); the spec is "
               "validated against libstdc++ std::bitset on the same lines.")
 LEVEL_NOTE = ("Trusted: Lean kernel + propext/Classical.choice/Quot.sound; the hand model's fidelity outside the explored "
               "histories; the popcount builtin returns the number of one bits (the portable loop is proved); g++-12/ASan; "
